@@ -152,13 +152,18 @@ def parseU8 (s : Bytes) : Option Nat :=
     let v := t.foldl (fun acc c => acc * 10 + (c - 48)) 0
     if v ≤ 255 then some v else none
 
-/-- `split_user_filename`: `2:USER2.TXT` ↦ `(2, USER2.TXT)`; no colon: user 0 -/
+/-- decimal digits of a `u8` (`u8::to_string`) -/
+def decDigits (u : Nat) : Bytes :=
+  if u < 10 then [48 + u] else if u < 100 then [48 + u / 10, 48 + u % 10] else [48 + u / 100, 48 + u / 10 % 10, 48 + u % 10]
+
+/-- `split_user_filename`: `2:USER2.TXT` ↦ `(2, USER2.TXT)`; no colon: user 0.  Only the canonical decimal
+spelling of the user number is accepted (`parts[0]==user.to_string()`), and exactly one colon (`parts.len()==2`). -/
 def splitUserFilename (xname : Bytes) : R (Nat × Bytes) :=
   match splitOn 58 xname with
   | [_] => .ok (0, xname)
-  | p0 :: p1 :: _ =>
+  | p0 :: p1 :: rest =>
     match parseU8 p0 with
-    | some user => if user < USER_END then .ok (user, p1) else .error .badFormat
+    | some user => if user < USER_END && rest.isEmpty && p0 == decDigits user then .ok (user, p1) else .error .badFormat
     | none => .error .badFormat
   | [] => .ok (0, xname)
 
@@ -201,10 +206,6 @@ def stringToPassword (s : Bytes) : Nat × Bytes :=
   let dec := padTo 8 (upper s)
   let decoder := dec.foldl (fun acc b => (acc + b) % 256) 0
   (decoder, (dec.map (fun b => Nat.xor decoder b)).reverse)
-
-/-- decimal digits of a `u8` (`u8::to_string`) -/
-def decDigits (u : Nat) : Bytes :=
-  if u < 10 then [48 + u] else if u < 100 then [48 + u / 10, 48 + u % 10] else [48 + u / 100, 48 + u / 10 % 10, 48 + u % 10]
 
 /-! ## directory entries: 32 bytes, fields at fixed offsets (`directory.rs`) -/
 
